@@ -41,6 +41,7 @@ func C19_TallyCharacters() {
 // C19_RulesExact (K2): Rules.Errors / IsValid with symbolic settings accepts a value exactly
 // when it meets every configured minimum (tallyCharacters replaced by its contract).
 func C19_RulesExact() {
+	verif.ReplayInInterpreter() // the class counts come from the contract of tallyCharacters
 	r := defaults.Rules{
 		FieldName:       "password",
 		Required:        verif.Bool("Required"),
